@@ -4,7 +4,7 @@
 export GOFLAGS=-mod=mod GOPROXY=off GOSUMDB=off GOTOOLCHAIN=local
 unset GOWORK
 cd /verif
-if [ ! -x /verif/bin/ycheck ] || [ -n "$(find /verif/ycheck -newer /verif/bin/ycheck -name '*.go' 2>/dev/null | head -1)" ]; then
+if [ ! -x /verif/bin/ycheck ] || [ -n "$(find /verif/ycheck -newer /verif/bin/ycheck \( -name '*.go' -o -name '*.json' -o -name 'go.mod' \) 2>/dev/null | head -1)" ]; then
   (cd /verif/ycheck && go build -o /verif/bin/ycheck .) || { echo "UNDECIDED: cannot build the checker"; exit 2; }
 fi
 exec /verif/bin/ycheck -property "$1" -tier "${2:-quick}"
